@@ -72,20 +72,76 @@ func errType(be *scriggo.BuildError) string {
 	return "check"
 }
 
-// deltaClass buckets a column delta so that classes stay narrow.
-func columnDelta(d Disagreement, p Pos, file []byte) string {
-	_, col, ok := LineCol(file, p.Start)
-	if !ok {
-		return ""
+// tokenClassAt names the kind of token that starts at offset x (used to keep
+// the class of "line:column inside the range" disagreements narrow).
+func tokenClassAt(file []byte, x int) string {
+	if x < 0 || x >= len(file) {
+		return "eof"
 	}
-	dl := p.Column - col
+	c := file[x]
 	switch {
-	case dl < -3:
-		return "<-3"
-	case dl > 3:
-		return ">+3"
+	case c == '.':
+		return "dot"
+	case c == '(':
+		return "paren"
+	case c == '[':
+		return "bracket"
+	case c == '{':
+		return "brace"
+	case strings.IndexByte("+-*/%&|^<>=!:", c) >= 0:
+		return "operator"
+	case c == '_' || c >= 'a' && c <= 'z' || c >= 'A' && c <= 'Z' || c >= 0x80:
+		j := x
+		for j < len(file) && (file[j] == '_' || file[j] >= 'a' && file[j] <= 'z' || file[j] >= 'A' && file[j] <= 'Z') {
+			j++
+		}
+		switch w := string(file[x:j]); w {
+		case "contains", "and", "or", "not":
+			return "word-operator"
+		}
+		return "name"
+	case c >= '0' && c <= '9':
+		return "number"
+	case c == '"' || c == '`' || c == '\'':
+		return "quote"
+	case c == ' ' || c == '\t' || c == '\n' || c == '\r':
+		return "space"
 	}
-	return fmt.Sprintf("%+d", dl)
+	return "other"
+}
+
+// disagreementClass refines a line/column disagreement into a narrow class.
+//
+//	inside:<token>  line:column denote a byte inside (Start,End], where <token> starts
+//	before:<delta>, after:<delta>  line:column denote a byte before Start / after End
+//	                (delta in lines if the line differs, else in columns, bucketed)
+//	nowhere         the file has no such line:column
+func disagreementClass(d Disagreement, p Pos, file []byte) string {
+	rel := Relation(file, p)
+	switch rel {
+	case "inside":
+		x, _ := OffsetOf(file, p.Line, p.Column)
+		return d.Kind + ":inside:" + tokenClassAt(file, x)
+	case "nowhere":
+		return d.Kind + ":nowhere"
+	}
+	line, col, ok := LineCol(file, p.Start)
+	bucket := func(n int) string {
+		switch {
+		case n < -3:
+			return "<-3"
+		case n > 3:
+			return ">+3"
+		}
+		return fmt.Sprintf("%+d", n)
+	}
+	if p.Line != line {
+		return d.Kind + ":" + rel + ":lines" + bucket(p.Line-line)
+	}
+	if !ok {
+		return d.Kind + ":" + rel
+	}
+	return d.Kind + ":" + rel + ":cols" + bucket(p.Column-col)
 }
 
 // judgeError applies the oracle to one build error. It returns the violation
@@ -110,10 +166,15 @@ func judgeError(be *scriggo.BuildError, fsys *bytesgen.RecFS) (keys []string, de
 	}
 	for _, d := range Check(content, p) {
 		k := d.Kind
-		if d.Kind == "column" {
-			k += columnDelta(d, p, content)
+		if d.Kind == "line" || d.Kind == "column" {
+			k = disagreementClass(d, p, content)
 		}
-		keys = append(keys, core.SigJoin(typ, cls, k))
+		if strings.Contains(k, ":inside:") {
+			// systematic: keyed by the token the line:column point at, not by the message
+			keys = append(keys, core.SigJoin(typ, k))
+		} else {
+			keys = append(keys, core.SigJoin(typ, cls, k))
+		}
 		details = append(details, d.Detail)
 	}
 	return keys, details, content
